@@ -3,6 +3,8 @@
 //! and writes (a) Coq case files on which the model is evaluated and compared, (b) result_<prop>.json.
 mod c13;
 mod coqw;
+mod enumgen;
+mod enumprops;
 mod gen;
 mod prng;
 mod ser;
@@ -45,6 +47,13 @@ fn main() {
         "C07" => termprops::run_c07(&o),
         "C14" => termprops::run_c14(&o),
         "C17" => termprops::run_c17(&o),
+        "C01" => enumprops::run_c01(&o),
+        "C04" => enumprops::run_c04(&o),
+        "C08" => enumprops::run_c08(&o),
+        "C09" => enumprops::run_c09(&o),
+        "C10" => enumprops::run_c10(&o),
+        "C12" => enumprops::run_c12(&o),
+        "C15" => enumprops::run_c15(&o),
         _ => { eprintln!("unknown property {prop}"); std::process::exit(2); }
     };
     rep.write(&o.outdir).expect("write report");
